@@ -309,7 +309,19 @@ func runC19(s *Sim) {
 	var client *modbus.Client
 	var server *modbus.Server
 	if tcp {
-		client = modbus.NewClient(modbus.NewTCP(a, 500*time.Millisecond, modbus.TransportClient), 0)
+		ctr := modbus.NewTCP(a, 500*time.Millisecond, modbus.TransportClient)
+		if wl.Chance(1, 3) {
+			// a connection that has been in use for a long time: the 16-bit transaction id is about to wrap during this session
+			n := 65536*(1+wl.Draw(2)) - 1 - wl.Draw(10)
+			for i := 0; i < n; i++ {
+				_, _ = ctr.Encode(id, modbus.ReadCoils(0, 1))
+			}
+			s.Probe("aged TCP connection (transaction id wraps during the session)")
+		} else {
+			wl.Raw()
+			wl.Raw()
+		}
+		client = modbus.NewClient(ctr, 0)
 		server = modbus.NewServer(id, modbus.NewTCP(b, 500*time.Millisecond, modbus.TransportServer), regs, 0)
 	} else {
 		pa := respreader.NewReadWriteCloser(a, 500*time.Millisecond, chunkTO)
